@@ -15,7 +15,7 @@ Implied guards of every path mentioned in an atom are conjoined with that atom.
 import re
 import boolalg as B
 
-STEP = re.compile(r"(:\{[A-Za-z0-9_|]+\}|:[A-Za-z0-9_]+|![A-Za-z0-9_]+|\.[A-Za-z0-9_]+|\?|~|\[\*\]|\[[0-9]+\])")
+STEP = re.compile(r"(:\{[A-Za-z0-9_|]+\}|:[A-Za-z0-9_]+|![A-Za-z0-9_]+|\.[A-Za-z0-9_]+|\?|~|\[\*[0-9]*\]|\[[0-9]+\]|\([^()]*\)\*)")
 
 
 class SpecError(Exception):
@@ -65,6 +65,11 @@ def expand_path(text, aliases):
         elif st == "~":
             implied.append(B.atom("is(%s; Ok)" % cur))
             cur = cur + "?"
+        elif re.match(r"\[\*[0-9]+\]", st):
+            cur = cur + "[*#%s]" % st[2:-1]
+        elif st.startswith("("):
+            alts = sorted(x.strip().replace(":", "↓") for x in st[1:-2].split("|"))
+            cur = cur + "(%s)*" % "|".join(alts)
         else:
             cur = cur + st
         pos = mm.end()
@@ -131,6 +136,10 @@ class Parser:
             tok = s[self.i:j + 1]
             self.i = j + 1
             return ("lit", tok, [])
+        m = re.match(r"'[^']'", s[self.i:])
+        if m:
+            self.i += m.end()
+            return ("lit", m.group(0), [])
         m = re.match(r"-?[0-9]+", s[self.i:])
         if m:
             self.i += m.end()
